@@ -58,9 +58,12 @@ func Verif_C48_rejects() {
 	y, err := conv.Decode(conv.Encode(x))
 	verifAssert(err == nil && bytes.Equal(x, y), "a concrete address round-trips through the text form")
 	five, _ := bech32.ConvertBits(x, 8, 5, true)
-	other, _ := bech32.Encode("bc", five)
-	_, err = conv.Decode(other)
-	verifAssert(err != nil, "text with another prefix is rejected")
+	for _, hrp := range []string{"bc", "er", "erdx", "xerd", "erd1x", "erd11", "erd1testnet"} {
+		other, errEnc := bech32.Encode(hrp, five)
+		verifAssert(errEnc == nil, "foreign text built")
+		_, err = conv.Decode(other)
+		verifAssert(err != nil, "text with another prefix is rejected (also prefixes that contain the separator character)")
+	}
 	short, _ := bech32.ConvertBits(x[:n-2], 8, 5, true)
 	shortText, _ := bech32.Encode("erd", short)
 	_, err = conv.Decode(shortText)
